@@ -1,4 +1,172 @@
-import Ruint.Model.Float
-/-! C18 — placeholder while the theorems are being re-homed (g9). -/
+import Ruint.Lemmas.FloatTryG
+
+/-!
+# C18 — float conversions round predictably and classify special values
+
+Property theorems only. The model (`Ruint.Float.*`, file `Model/Float.lean`) is a bit-level IEEE-754
+model written for this purpose (Lean's `Float` is opaque to the kernel and is not used); the functions
+below are the ones the correspondence driver executes against the real `Uint::try_from(f64/f32)`,
+`saturating_from`, `wrapping_from`, `f64::from(&Uint)`, `f32::from(&Uint)`. A float is its bit pattern;
+`decode` gives `nan | inf sign | fin sign m e` with value `(-1)^sign · m · 2^e`. `floorHalf m e` is
+`⌊m·2^e + 1/2⌋` (see `floorHalf_nonneg_exp`, `floorHalf_neg_exp` in `Lemmas/FloatTryD.lean`).
+All theorems hold at every width `bits` (including `0` and `≥ 1024`, where `2^BITS` is `+∞` as an `f64`).
+-/
 namespace Ruint.C18
+open Ruint Ruint.Float
+
+theorem unfold_try (fixed : Bool) (bits x : ℕ) (n : ℕ) :
+    tryFromF64F fixed (n + 1) bits x =
+      if isNaN b64 x = true then .notANumber
+      else if lt b64 x zero = true then
+        .negative (wneg bits (match tryFromF64F fixed n bits (abs b64 x) with
+          | .ok n => n | .tooLarge n => n | _ => 0))
+      else if ge b64 x (exp2Int b64 bits) = true then
+        .tooLarge (match tryFromF64F fixed n bits (fmod b64 x (exp2Int b64 bits)) with
+          | .ok n => n | .tooLarge n => n | _ => 0)
+      else if lt b64 x (half b64) = true then .ok 0 else tfMain fixed bits x := by
+  rw [tryFromF64F]; rfl
+
+/-- NaN (any payload, either sign) ↦ `NotANumber`. -/
+theorem try_from_f64_nan (bits x : ℕ) (h : decode b64 x = .nan) : tryFromF64 bits x = .notANumber := by
+  unfold tryFromF64
+  rw [unfold_try]
+  have : isNaN b64 x = true := by unfold isNaN; rw [h]
+  rw [if_pos this]
+
+/-- every float below zero (negative non-zero finite, or `-∞`) ↦ `ValueNegative`. -/
+theorem try_from_f64_negative (bits x : ℕ)
+    (h : (∃ m e, decode b64 x = .fin true m e ∧ m ≠ 0) ∨ decode b64 x = .inf true) :
+    ∃ w, tryFromF64 bits x = .negative w := by
+  unfold tryFromF64
+  rw [unfold_try]
+  rcases h with ⟨m, e, hx, hm⟩ | hx
+  · have h1 : isNaN b64 x = false := isNaN_of_fin x m true e hx
+    have h2 : lt b64 x zero = true := (lt_zero_iff x m true e hx).mpr ⟨rfl, hm⟩
+    rw [h1, h2]; exact ⟨_, rfl⟩
+  · have h1 : isNaN b64 x = false := by unfold isNaN; rw [hx]
+    have h2 : lt b64 x zero = true := by unfold lt zero; rw [hx, decode_zero]; rfl
+    rw [h1, h2]; exact ⟨_, rfl⟩
+
+/-- `-0.0 ↦ Ok(0)`. -/
+theorem try_from_f64_neg_zero (bits : ℕ) : tryFromF64 bits (2 ^ 63) = .ok 0 := by
+  have hx : decode b64 (2 ^ 63) = .fin true 0 (-1074) := by decide +kernel
+  have := (tryFromF64_fin bits (2 ^ 63) 0 true (-1074) (by norm_num) hx (Or.inr rfl)).1
+  rw [floorHalf_zero] at this
+  exact this (by positivity)
+
+/-- `+∞ ↦ ValueTooLarge` at every width (also where `2^BITS` itself overflows to `+∞`). -/
+theorem try_from_f64_pos_inf (bits : ℕ) : tryFromF64 bits b64.infBits = .tooLarge 0 := by
+  unfold tryFromF64
+  rw [unfold_try]
+  have h1 : isNaN b64 b64.infBits = false := by decide +kernel
+  have h2 : lt b64 b64.infBits zero = false := by decide +kernel
+  have h3 : ge b64 b64.infBits (exp2Int b64 bits) = true := by
+    unfold ge
+    rw [decode_inf64]
+    rcases Nat.lt_or_ge 1023 bits with hb | hb
+    · rw [exp2Int_inf bits hb, decode_inf64]; rfl
+    · rw [exp2Int_eq bits hb, decode_pow2 bits (by omega) (by omega)]; rfl
+  rw [h1, h2, h3]
+  simp only [Bool.false_eq_true, if_false, if_true]
+  -- the wrapped payload: `inf % modulus = NaN ↦ ZERO`
+  have h4 : fmod b64 b64.infBits (exp2Int b64 bits) = b64.nanBits := by
+    unfold fmod
+    rw [decode_inf64]
+    rcases Nat.lt_or_ge 1023 bits with hb | hb
+    · rw [exp2Int_inf bits hb, decode_inf64]
+    · rw [exp2Int_eq bits hb, decode_pow2 bits (by omega) (by omega)]
+  rw [h4, unfold_try]
+  have h5 : isNaN b64 b64.nanBits = true := by decide +kernel
+  rw [if_pos h5]
+
+
+/-- **`try_from_f64_spec`** — a finite non-negative `f64` (`x = m·2^e`, or `-0.0`) converts to
+    `Ok(⌊x + 1/2⌋)` exactly when that integer is `< 2^bits`, and to `ValueTooLarge` otherwise, at every
+    width. (Repaired code; before commit f6c7d9d this failed on odd integers in `[2^52, 2^53)`, see the
+    witnesses below.) -/
+theorem try_from_f64_spec (bits x m : ℕ) (neg : Bool) (e : ℤ) (hx64 : x < 2 ^ 64)
+    (hx : decode b64 x = .fin neg m e) (hnn : neg = false ∨ m = 0) :
+    (floorHalf m e < 2 ^ bits → tryFromF64 bits x = .ok (floorHalf m e))
+    ∧ (2 ^ bits ≤ floorHalf m e → ∃ w, tryFromF64 bits x = .tooLarge w) :=
+  tryFromF64_fin bits x m neg e hx64 hx hnn
+
+/-- the meaning of `floorHalf`: integers are unchanged, `m / 2^s` gets half a unit added before flooring. -/
+theorem floorHalf_meaning (m s : ℕ) (hs : 1 ≤ s) :
+    floorHalf m 0 = m ∧ (∀ k : ℕ, floorHalf m (k : ℤ) = m * 2 ^ k)
+    ∧ floorHalf m (-(s : ℤ)) = (2 * m + 2 ^ s) / (2 * 2 ^ s) := by
+  refine ⟨by simp [floorHalf], fun k => by simp [floorHalf], ?_⟩
+  unfold floorHalf
+  rw [if_neg (by omega)]
+  have : (- -(s : ℤ)).toNat = s := by omega
+  rw [this, pow_succ, Nat.mul_comm (2 ^ s) 2]
+
+/-- `try_from(f32)` obeys the same specification (the widening to `f64` is exact). -/
+theorem try_from_f32_spec (bits x m : ℕ) (neg : Bool) (e : ℤ)
+    (hx : decode b32 x = .fin neg m e) (hnn : neg = false ∨ m = 0) :
+    (floorHalf m e < 2 ^ bits → tryFromF32 bits x = .ok (floorHalf m e))
+    ∧ (2 ^ bits ≤ floorHalf m e → ∃ w, tryFromF32 bits x = .tooLarge w) := by
+  obtain ⟨h64, m', e', hd, hfl, hz⟩ := f32ToF64_fin x m neg e hx
+  have hnn' : neg = false ∨ m' = 0 := by
+    rcases hnn with h | h
+    · exact Or.inl h
+    · exact Or.inr (hz h)
+  have := tryFromF64_fin bits (f32ToF64 x) m' neg e' h64 hd hnn'
+  rw [hfl] at this
+  exact this
+
+/-- `f32` NaN ↦ `NotANumber`. -/
+theorem try_from_f32_nan (bits x : ℕ) (h : decode b32 x = .nan) : tryFromF32 bits x = .notANumber := by
+  unfold tryFromF32
+  apply try_from_f64_nan
+  unfold f32ToF64; rw [h]; decide +kernel
+
+/-- the saturating form: `MAX` above the range, `0` for negatives and NaN, else the rounded value;
+    i.e. `min ⌊x + 1/2⌋ (2^bits - 1)` on finite non-negative input. -/
+theorem saturating_from_f64_spec (bits x m : ℕ) (neg : Bool) (e : ℤ) (hx64 : x < 2 ^ 64)
+    (hx : decode b64 x = .fin neg m e) (hnn : neg = false ∨ m = 0) :
+    saturating bits (tryFromF64 bits x) = some (min (floorHalf m e) (2 ^ bits - 1)) := by
+  obtain ⟨h1, h2⟩ := tryFromF64_fin bits x m neg e hx64 hx hnn
+  have hp : 0 < 2 ^ bits := by positivity
+  rcases Nat.lt_or_ge (floorHalf m e) (2 ^ bits) with h | h
+  · rw [h1 h]; simp only [saturating]; congr 1; omega
+  · obtain ⟨w, hw⟩ := h2 h
+    rw [hw]; simp only [saturating]; congr 1; omega
+
+theorem saturating_from_f64_nan (bits x : ℕ) (h : decode b64 x = .nan) :
+    saturating bits (tryFromF64 bits x) = some 0 := by
+  rw [try_from_f64_nan bits x h]; rfl
+
+theorem saturating_from_f64_negative (bits x : ℕ)
+    (h : (∃ m e, decode b64 x = .fin true m e ∧ m ≠ 0) ∨ decode b64 x = .inf true) :
+    saturating bits (tryFromF64 bits x) = some 0 := by
+  obtain ⟨w, hw⟩ := try_from_f64_negative bits x h
+  rw [hw]; rfl
+
+theorem saturating_from_f64_pos_inf (bits : ℕ) :
+    saturating bits (tryFromF64 bits b64.infBits) = some (2 ^ bits - 1) := by
+  rw [try_from_f64_pos_inf]; rfl
+
+/-! ## the defect that was repaired (DESIGN §9): `value + 0.5` is a tie on odd integers in `[2^52, 2^53)`
+
+`tryFromF64Old` is the model of the code before commit f6c7d9d. The kernel evaluates it on the witnesses:
+`U64::try_from(4503599627370497.0)` returned `2^52 + 2`, and `U53::try_from(2^53 - 1)` was rejected,
+whereas the repaired model (and `try_from_f64_spec`) give the exact integers. -/
+theorem old_code_violates_spec_witness :
+    tryFromF64Old 64 0x4330000000000001 = .ok (2 ^ 52 + 2)
+    ∧ decode b64 0x4330000000000001 = .fin false (2 ^ 52 + 1) 0
+    ∧ floorHalf (2 ^ 52 + 1) 0 = 2 ^ 52 + 1 := by decide +kernel
+
+theorem old_code_violates_spec_witness_u53 :
+    tryFromF64Old 53 0x433fffffffffffff = .tooLarge 0
+    ∧ tryFromF64 53 0x433fffffffffffff = .ok (2 ^ 53 - 1) := by decide +kernel
+
+/-! Non-vacuity: concrete instances evaluated by the kernel (halves round up, `123.499 ↦ 123`,
+    the largest `f64` fits 1024 bits and not 1023, a subnormal, `f32::MAX`). -/
+example : tryFromF64 7 0x405ee00000000000 = .ok 124 ∧ tryFromF64 7 0x405edff3b645a1cb = .ok 123 := by
+  decide +kernel
+example : tryFromF64 1024 0x7fefffffffffffff = .ok (2 ^ 1024 - 2 ^ 971)
+    ∧ tryFromF64 1023 0x7fefffffffffffff = .tooLarge (2 ^ 1023 - 2 ^ 971) := by decide +kernel
+example : tryFromF64 64 1 = .ok 0 ∧ tryFromF32 128 0x7f7fffff = .ok (2 ^ 128 - 2 ^ 104) := by decide +kernel
+example : tryFromF64 8 0xc071230000000000 = .negative 0xee := by decide +kernel
+
 end Ruint.C18
